@@ -44,7 +44,7 @@ if confirmed:
     try:
         for pid in props:
             p = sh(f"HAIWAY_SRC={wt}/src VERIF_SCALE={scale} VERIF_DET_SEEDS=1 timeout 1500 /verif/bin/check {pid} --tier quick")
-            sigs = [l.split('::')[0].replace('violation rule/signature:', '').strip() for l in p.stdout.splitlines() if l.startswith('violation rule/signature')]
+            sigs = [l.split('::')[0].replace('violation rule/signature:', '').strip() for l in p.stdout.splitlines() if 'violation rule/signature:' in l.split('::')[0]]
             verdict = 'CAUGHT' if p.returncode == 1 else ('MISSED' if p.returncode == 0 else 'HARNESS')
             meta["checks"][pid] = {"verdict": verdict, "signatures": sigs[:6], "cmd": f"VERIF_SCALE={scale} /verif/bin/check {pid} --tier quick", "exit": p.returncode}
             print(pid, verdict, sigs[:4])
